@@ -34,9 +34,14 @@ WriteClauses(e) ==
       tempo |-> /\ Len(tl) = Len(e.chart.bpms)
                 /\ \A k \in DOMAIN tl : \E j \in DOMAIN e.chart.bpms :
                       Abs(e.chart.bpms[j].t - TStart(tl, 0, k)) <= 6 + Len(tl) /\ Abs(e.chart.bpms[j].bl - tl[k].bl) <= 2,
-      samples |-> \A d \in DenHits(f, lay) \cup DenHolds(f, lay) : d.sample = "" \/
-                     (\E i \in DOMAIN e.chart.hits : e.chart.hits[i].sample = d.sample) \/
-                     (\E j \in DOMAIN e.chart.holds : e.chart.holds[j].sample = d.sample) ]
+      (* an object whose in-memory sample is in the #WAV table is written with that sample's id *)
+      known_samples |-> LET known == { f.wavs[i].file : i \in DOMAIN f.wavs } IN
+                        /\ \A i \in DOMAIN e.chart.hits : e.chart.hits[i].sample \in known =>
+                              \E d \in DenHits(f, lay) : d.c = e.chart.hits[i].c /\ Abs(d.t - e.chart.hits[i].t) <= tol(d)
+                                                          /\ d.sample = e.chart.hits[i].sample
+                        /\ \A j \in DOMAIN e.chart.holds : e.chart.holds[j].sample \in known =>
+                              \E d \in DenHolds(f, lay) : d.c = e.chart.holds[j].c /\ Abs(d.t - e.chart.holds[j].t) <= tol(d)
+                                                           /\ d.sample = e.chart.holds[j].sample ]
 
 Clauses(e) ==
     IF e.exc # "" THEN [ no_exc |-> FALSE ]
